@@ -44,6 +44,9 @@ func main() {
 			"pass to a method, for-in loop, closure frame / method frame returning its closures, method frame ending in a tail call) pruned to well-formed ones (every closure captures, every variable is captured, " +
 			"every closure is used, stored closures are called); layer A = closures, nesting and closure frames over ≤ 2 variables; layer B = all statements over ≤ 3 variables; layer C = B without loops, lists and tail-call frames; " +
 			"quick: B with ≤ 5 statements as top-level code and as a method body, A with 6–7 as top-level code; thorough: B with ≤ 6 both ways, A with 7–8 as top-level code, C with 7 as a method body; " +
+			"plus, in both tiers, the depth-3 capture matrix of harness/mini/enum_cm.go: an outer method with 1–3 variables, a closure mid with own variables none/L/P/LL/PL that first reads an ordered subset of the outer variables " +
+			"(every ordered subset for ≤ 2 outer variables; none or a full permutation for 3), and a closure inner in mid that captures every ordered selection of 1–3 variables out of mid's own and the outer ones, " +
+			"all read or all written in inner, then written in mid and in the outer frame, inner called inside mid, after mid returned and after the outer method returned; " +
 			"every program run with the default stack and, when the " +
 			"closure-free growth canary passes, again with a 64-slot initial value stack and recursion hooks after every closure creation and at the start of every closure body; " +
 			"oracle: stdout equals the reference interpreter's; terms are distinct (no repetition); every term is non-trivial (it calls a closure that captured a variable)",
@@ -182,7 +185,7 @@ func run(c *engine.Ctx) {
 						id := fmt.Sprintf("%s/%s/n=%d/%s/%05d %s", mode, l.name, n, site, k, cs[0].Shape())
 						k++
 						mode, site := mode, site
-						c.Case(id, func(r *engine.R) { runChunk(r, cs, mode, site) })
+						c.Case(id, func(r *engine.R) { runChunk(r, clTerms(cs, site), mode, site) })
 					}
 					mini.EnumClosures(l.opts, n, func(cc *mini.ClCase) bool {
 						chunk = append(chunk, cc)
@@ -195,12 +198,34 @@ func run(c *engine.Ctx) {
 				}
 			}
 		}
+		// the depth-3 capture matrix (both tiers)
+		var chunk []*mini.CMCase
+		k := 0
+		flush := func() {
+			if len(chunk) == 0 {
+				return
+			}
+			cs := chunk
+			chunk = nil
+			id := fmt.Sprintf("%s/matrix/%05d %s", mode, k, cs[0].Shape())
+			k++
+			mode := mode
+			c.Case(id, func(r *engine.R) { runChunk(r, cmTerms(cs), mode, "method") })
+		}
+		mini.EnumCaptureMatrix(func(cc *mini.CMCase) bool {
+			chunk = append(chunk, cc)
+			if len(chunk) == batchSize {
+				flush()
+			}
+			return true
+		})
+		flush()
 	}
 }
 
 var nameSeq int
 
-func hasFeature(cc *mini.ClCase, f string) bool {
+func hasFeature(cc *term, f string) bool {
 	for _, x := range cc.Features() {
 		if x == f {
 			return true
@@ -209,7 +234,40 @@ func hasFeature(cc *mini.ClCase, f string) bool {
 	return false
 }
 
-func runChunk(r *engine.R, cs []*mini.ClCase, mode, site string) {
+// term is one program of the space: a closure term at a site, or a case of the capture matrix.
+type term struct {
+	shape string
+	feats []string
+	// build returns the program and the number of leading definitions that come from the prelude
+	build func(suffix string) (*mini.Program, int)
+}
+
+func (t *term) Shape() string      { return t.shape }
+func (t *term) Features() []string { return t.feats }
+
+func clTerms(cs []*mini.ClCase, site string) []*term {
+	ts := make([]*term, len(cs))
+	for i, cc := range cs {
+		cc := cc
+		ts[i] = &term{shape: cc.Shape(), feats: cc.Features(), build: func(suffix string) (*mini.Program, int) {
+			return cc.Program(site, suffix), 1 // Defs[0] is `use`, part of the prelude
+		}}
+	}
+	return ts
+}
+
+func cmTerms(cs []*mini.CMCase) []*term {
+	ts := make([]*term, len(cs))
+	for i, cc := range cs {
+		cc := cc
+		ts[i] = &term{shape: cc.Shape(), feats: []string{"capture-matrix"}, build: func(suffix string) (*mini.Program, int) {
+			return cc.Program(suffix), 0
+		}}
+	}
+	return ts
+}
+
+func runChunk(r *engine.R, cs []*term, mode, site string) {
 	if mode == "growth" {
 		if res := canary(); res != "ok" {
 			r.Capped("growth mode skipped: the closure-free stack-growth canary fails (" + res + ")")
@@ -223,20 +281,18 @@ func runChunk(r *engine.R, cs []*mini.ClCase, mode, site string) {
 	srcs := make([]string, len(cs))
 	for i, cc := range cs {
 		nameSeq++
-		p := cc.Program(site, fmt.Sprintf("_%d", nameSeq))
+		p, skip := cc.build(fmt.Sprintf("_%d", nameSeq))
 		w, err := mini.Run(p)
 		if err != nil {
 			panic(fmt.Sprintf("reference interpreter failed on %s: %v", cc.Shape(), err))
 		}
 		wants[i] = w
 		var defs strings.Builder
-		for _, d := range p.Defs[1:] { // Defs[0] is `use`, part of the prelude
+		for _, d := range p.Defs[skip:] {
 			defs.WriteString(mini.PrintDef(d, mini.PrintOpts{Grow: grow}))
 		}
 		main := mini.PrintStmts(p.Main, mini.PrintOpts{Grow: grow})
-		if site == "top" {
-			main = "do\n" + indent(main) + "end\n" // own scope: the units of a batch reuse variable names
-		}
+		main = "do\n" + indent(main) + "end\n" // own scope: the units of a batch reuse variable names
 		units[i] = mini.Unit{Defs: defs.String(), Main: main}
 		srcs[i] = units[i].Defs + units[i].Main
 	}
@@ -260,7 +316,9 @@ func runChunk(r *engine.R, cs []*mini.ClCase, mode, site string) {
 	}
 	opts := mini.BatchOpts{Prelude: prelude}
 	if grow {
-		opts.StackSlots = smallStack // isolated runs are one program per term: the top frame stays small
+		opts.StackSlots = smallStack
+		// top-level code keeps its locals in the top frame: one program per term so that it fits the small stack
+		opts.Separate = site == "top"
 	}
 	for k, u := range mini.RunBatch(pick(safe), opts) {
 		res[safe[k]] = u
